@@ -65,6 +65,8 @@ func (c *Config) Proxy(closing chan bool, cc io.ReadWriter, url *url.URL) error 
 	if err != nil {
 		return fmt.Errorf("connecting h2 to %v: %w", url, err)
 	}
+	// The upstream connection belongs to this call.
+	defer sc.Close()
 	if err := forwardPreface(sc, cc); err != nil {
 		return fmt.Errorf("initializing h2 with %v: %w", url, err)
 	}
@@ -99,6 +101,30 @@ func (c *Config) Proxy(closing chan bool, cc io.ReadWriter, url *url.URL) error 
 		},
 	}
 	sToC.processors = cToS.processors
+
+	// The session is over as soon as either direction stops relaying or the proxy shuts down. Both
+	// connections are closed at that point: this ends the reads and writes the relays may be blocked
+	// in, and `done` releases the ones that are blocked on an output channel.
+	done := make(chan struct{})
+	var once sync.Once
+	stop := func() {
+		once.Do(func() {
+			close(done)
+			sc.Close()
+			if c, ok := cc.(io.Closer); ok {
+				c.Close()
+			}
+		})
+	}
+	cToS.done, sToC.done = done, done
+	cToS.stop, sToC.stop = stop, stop
+	go func() {
+		select {
+		case <-closing:
+			stop()
+		case <-done:
+		}
+	}()
 
 	var wg sync.WaitGroup
 	wg.Add(2)
